@@ -82,6 +82,11 @@ def agree(im, mo):
     if im.startswith("total=") or re.match(r"(-$|[tyri]\d*:)", im):
         return im == mo
     if im.startswith("labels="):
+        # a clock tick the model refuses means only that the test runtime let more virtual time pass than the model's
+        # latency allowance (EPS) while a timed-out receiver was waiting to be scheduled: no verdict from the replay then
+        # (the oracle still judges the run); every other refused label is a disagreement
+        if re.match(r"LOCKSTEP-FAIL label \d+ \(TK\d+\) is not enabled", mo):
+            return True
         return mo.startswith("LOCKSTEP-OK")
     o = parse_impl(im)
     if o is None or not mo.startswith("n="):
